@@ -486,15 +486,15 @@ func runConcPoolGoroutines(c *Ctx, rounds int) {
 			defer wg.Done()
 			for i := 0; i < rounds; i++ {
 				k := poolPoisons[rr.Intn(len(poolPoisons))]
-				if poolIsDouble(k) {
-					k = "partial" // see known finding pool-double-close
-				}
 				p := fx.poison(k)
 				if p == "" {
 					p = fx.alternate(32+rr.Intn(200), 32+rr.Intn(200))
 				}
 				if p != "" {
 					mu.Lock()
+					if poolIsDouble(k) {
+						p = "[double Close] " + p
+					}
 					fails = append(fails, fmt.Sprintf("goroutine %d (%s) after %s: %s", g, fx.chain.name, k, p))
 					mu.Unlock()
 					return
@@ -510,7 +510,11 @@ func runConcPoolGoroutines(c *Ctx, rounds int) {
 	c.StatN("pool discipline: goroutine rounds", ng*rounds)
 	for i, f := range fails {
 		if i < 3 {
-			c.Violate("pool", "pool-object-shared", f, "goroutines")
+			key := "pool-object-shared"
+			if strings.Contains(f, "[double Close]") {
+				key = "pool-double-close"
+			}
+			c.Violate("pool", key, f, "goroutines")
 		}
 	}
 }
